@@ -66,7 +66,8 @@ def _get_example_from_call(expr: ast.Call | astroid.Call, func_name: str) -> Exa
         val = get_value(keyword.value)
         if val is UNKNOWN:
             return None
-        assert keyword.arg is not None
+        if keyword.arg is None:  # `**mapping`
+            return None
         kwargs[keyword.arg] = val
 
     return Example(args, kwargs, None)
